@@ -120,6 +120,15 @@ func c16BuildTx(name string) *wire.MsgTx {
 		tx.LockTime = 1
 		return tx
 	}
+	if strings.HasPrefix(name, "var#") { // distinct small transactions for the large block fixture
+		var k int
+		fmt.Sscanf(name[4:], "%d", &k)
+		tx := wire.NewMsgTx(1)
+		tx.AddTxIn(&wire.TxIn{PreviousOutPoint: wire.OutPoint{Hash: c16Hash(0xd0), Index: uint32(k)}, SignatureScript: []byte{0x51}})
+		tx.AddTxOut(&wire.TxOut{Value: int64(k) + 1, PkScript: c16P2PKH(byte(k))})
+		tx.LockTime = uint32(k)
+		return tx
+	}
 	panic("C16: unknown transaction fixture " + name)
 }
 
@@ -132,6 +141,14 @@ var c16BlockTxs = map[string][]string{
 	"b3":    {"coinbase", "plain", "minimal"},
 	"b3tok": {"coinbase", "token", "plain"},
 	"b3dup": {"coinbase", "plain", "plain"}, // two distinct messages with equal content
+	// 300 transactions (index arithmetic beyond one byte); fixed call sequences only, see runC16
+	"b300": func() []string {
+		out := []string{"coinbase"}
+		for k := 1; k < 300; k++ {
+			out = append(out, fmt.Sprintf("var#%d", k))
+		}
+		return out
+	}(),
 }
 
 // c16BuildBlock returns a new, unshared message on every call.
@@ -267,7 +284,7 @@ func c16Refs() {
 	c16Once.Do(func() {
 		c16BlockRefs = map[string]*c16Ref{}
 		c16TxRefs = map[string]*c16Ref{}
-		for _, n := range c16BlockNames {
+		for _, n := range append(append([]string{}, c16BlockNames...), "b300") {
 			c16BlockRefs[n] = c16BlockRefOf(c16BuildBlock(n))
 		}
 		for _, n := range c16TxNames {
@@ -1385,7 +1402,7 @@ func runC16(c *mc.Ctx) {
 	c.Rule("every history is executed on a fresh real Block/Tx; after every call the result is compared with a fresh computation from MsgBlock()/MsgTx() and with the objects returned earlier in the history, and every field of the wire message and Height/Index are re-read; all calls are explored as successors of every history (BFS to the fixpoint of the implementation-cache key, and all sequences up to the depth bound), histories of maximal length are followed by one more call of every accessor. Non-trivial = histories that take a path depending on earlier calls: an accessor repeated (served from the cache, identity compared), Transactions() completing a sparse or individually filled slot array, TxHash on an already wrapped slot, or an out-of-range index after some cache was filled")
 	c.Assume("bchd wire (MsgBlock.Serialize/BlockHash/DeserializeTxLoc layout, MsgTx.Serialize/TxHash) is the reference the statement names ('a fresh computation from the underlying wire message') and is a pure function of the message fields: after every call every field of MsgBlock()/MsgTx() is compared with the fixture's (field print, pinned to the wire struct definitions by a self-test) and, while equal, the fixture's wire serialisation and hashes computed once are the fresh values; on any difference they are recomputed from MsgBlock() with wire. Fixtures are checked to survive wire decode/encode before the run")
 	c.Assume("the re-parse clause (NewBlockFromBytes(b.Bytes()) equivalent to b) depends on the returned bytes only and is evaluated once per fixture, constructor and distinct Bytes() content; the final sweep of all accessors is run after the sequences of maximal length (shorter ones have the same calls as successors) and on every replay")
-	c.Assume("blocks with more than 3 transactions, transactions other than the 4 fixtures, serialized input followed by trailing bytes, and mutation of the underlying wire message after wrapping are outside the bound")
+	c.Assume("blocks with more than 3 transactions (except the 300-transaction fixture, which is run on fixed call sequences only), transactions other than the 4 fixtures, serialized input followed by trailing bytes, and mutation of the underlying wire message after wrapping are outside the bound")
 	c.Assume("state key reads the private fields Block.{transactions,txnsGenerated,blockHash,serializedBlock,blockHeight} and Tx.{txHash,txIndex} by read-only reflection and is joined with the oracle's own memory (which objects it has already seen); it only decides when the breadth-first search stops, the depth-bounded enumeration does not use it")
 	c.Note("workers", "capped at 2: bchd/wire funnels every (de)serialisation through two global free-list channels, more goroutines only contend")
 	c16SelfTest()
@@ -1428,6 +1445,25 @@ func runC16(c *mc.Ctx) {
 		c16RunBlock(w, f.a, f.b, ops, false, len(ops) == depth)
 	})
 	c.Sample("block", c16BlockCase{Fixture: "b3tok", Ctor: "NewBlockFromBytes", Ops: []string{"TxHash(1)", "Transactions", "Tx(3)"}})
+
+	// (3) a 300-transaction block: fixed call sequences around the byte boundary of the index and the
+	// ends of the block, every constructor, each followed by the sweep of all accessors
+	{
+		seqs := [][]string{
+			{"Tx(255)", "Tx(256)", "Transactions"}, {"TxHash(256)", "Tx(256)", "TxHash(255)", "TxHash(257)"},
+			{"Tx(299)", "Tx(300)", "TxHash(299)"}, {"Transactions", "Tx(257)", "TxHash(1)"},
+			{"TxLoc", "Bytes", "Tx(128)", "Hash"}, {"Tx(-1)", "TxHash(299)", "Transactions", "TxHash(0)"},
+			{"Tx(0)", "Tx(0)", "Tx(127)", "Tx(127)", "Transactions"}, {"Bytes", "TxLoc", "TxHash(256)", "TxHash(0)", "Tx(256)"},
+		}
+		var big []c16BlockCase
+		for _, ct := range c16BlockCtors {
+			for _, sq := range seqs {
+				big = append(big, c16BlockCase{Fixture: "b300", Ctor: ct, Ops: sq})
+			}
+		}
+		c.Space("block: 300-transaction fixture x constructor x fixed call sequences", int64(len(big)))
+		c16ParFor(c, int64(len(big)), func(w *mc.W, i int64) { c16EvalBlock(w, big[i]) })
+	}
 
 	// ---- transactions
 	var tfams []c16Family
